@@ -2,6 +2,7 @@ pub mod chmux_wl;
 pub mod c01;
 pub mod c04;
 pub mod c06;
+pub mod c10;
 pub mod c11;
 pub mod c12;
 pub mod c13;
@@ -20,6 +21,7 @@ pub fn all() -> Vec<Check> {
     v.extend(c01::checks());
     v.extend(c04::checks());
     v.extend(c06::checks());
+    v.extend(c10::checks());
     v.extend(c11::checks());
     v.extend(c12::checks());
     v.extend(c13::checks());
